@@ -42,6 +42,7 @@ func main() {
 	verbose := flag.Bool("v", false, "verbose")
 	dump := flag.String("dump", "", "dump queries of obligations whose name contains this string")
 	noEvidence := flag.Bool("no-evidence", false, "do not write evidence")
+	genAnchors := flag.Bool("gen-anchors", false, "print `local name type#k` anchor lines for the identifiers used in the contracts of the selected functions")
 	extra := flag.String("extra", "", "JSON file with the result of a bounded / computed leg to merge into the evidence")
 	level := flag.String("level", "proof", "evidence level (proof | other)")
 	explanation := flag.String("explanation", "", "coverage.explanation for level other")
@@ -136,6 +137,93 @@ func main() {
 		}
 	}
 
+	if *genAnchors {
+		for _, k := range keys {
+			fn := prog.funcs[k]
+			fc := db.funcs[k]
+			if fn == nil {
+				continue
+			}
+			names := map[string]bool{}
+			var walk func(e Expr)
+			walk = func(e Expr) {
+				switch e := e.(type) {
+				case *EIdent:
+					names[e.Name] = true
+				case *EBin:
+					walk(e.X)
+					walk(e.Y)
+				case *EUn:
+					walk(e.X)
+				case *ECall:
+					walk(e.Fun)
+					for _, a := range e.Args {
+						walk(a)
+					}
+				case *EIndex:
+					walk(e.X)
+					walk(e.I)
+				case *ESlice:
+					walk(e.X)
+					if e.Lo != nil {
+						walk(e.Lo)
+					}
+					if e.Hi != nil {
+						walk(e.Hi)
+					}
+				case *ESel:
+					walk(e.X)
+				case *EQuant:
+					walk(e.Body)
+				}
+			}
+			var cls []*clause
+			cls = append(cls, fc.requires...)
+			cls = append(cls, fc.ensures...)
+			cls = append(cls, fc.modifies...)
+			cls = append(cls, fc.assumed...)
+			if fc.decreases != nil {
+				cls = append(cls, fc.decreases)
+			}
+			for _, l := range fc.loops {
+				cls = append(cls, l.invariants...)
+				cls = append(cls, l.modifies...)
+				if l.decreases != nil {
+					cls = append(cls, l.decreases)
+				}
+			}
+			for _, at := range fc.ats {
+				cls = append(cls, at.cl)
+			}
+			for _, cl := range cls {
+				walk(cl.e)
+			}
+			locals := namedLocals(fn)
+			count := map[string]int{}
+			var lines []string
+			for _, a := range locals {
+				ts := localTypeString(a)
+				count[ts]++
+				if names[a.Comment] {
+					// only the first declaration of a name gets an anchor (shadowed duplicates resolve by scope)
+					dup := false
+					for _, l := range lines {
+						if strings.HasPrefix(l, "local "+a.Comment+" ") {
+							dup = true
+						}
+					}
+					if !dup {
+						lines = append(lines, fmt.Sprintf("local %s %s#%d", a.Comment, ts, count[ts]))
+					}
+				}
+			}
+			fmt.Printf("FUNC %s\n", k)
+			for _, l := range lines {
+				fmt.Println(l)
+			}
+		}
+		return
+	}
 	var all []*obligation
 	var reports []funcReport
 	var engineErrors []string
